@@ -106,7 +106,7 @@ inductive Ty where
   | map (k v : Ty)
   | opt (t : Ty)
   | res (a b : Ty)
-  | wrap (t : Ty)                                  -- Box, Rc, Arc, Cell, RefCell, Mutex, RwLock, Cow
+  | wrap (cell : Bool) (t : Ty)                    -- Box, Rc, Arc, RefCell, Mutex, RwLock, Cow; `cell = true`: Cell<T> (packed iff T is)
   | tup (lay : Lay) (offs : List Nat) (ts : TyL)
   | arr (n : Nat) (t : Ty)
   | struct (name : String) (repr : ReprAttr) (lay : Lay) (fs : FieldL)
@@ -151,6 +151,7 @@ mutual
 def memSize : Ty → Option Nat
   | .prim p => some p.memSize
   | .arr n t => (memSize t).map (n * ·)
+  | .wrap true t => memSize t
   | .tup lay _ _ => some lay.size
   | .struct _ _ lay _ => some lay.size
   | .enum _ _ lay _ => some lay.size
@@ -160,6 +161,7 @@ end
 def memAlign : Ty → Nat
   | .prim p => p.memAlign
   | .arr _ t => memAlign t
+  | .wrap true t => memAlign t
   | .tup lay _ _ => lay.align
   | .struct _ _ lay _ => lay.align
   | .enum _ _ lay _ => lay.align
@@ -181,20 +183,24 @@ mutual
 def isPacked : Ty → Nat → Bool
   | .prim p, _ => p.packed
   | .arr _ t, v => isPacked t v
+  | .wrap true t, v => isPacked t v
+  -- `impl Packed for ArrayVec<V, C>` forwards to `V` (a finding: its memory image is not its encoding)
+  | .seq (.arrayVec _) t, v => isPacked t v
   | .tup lay offs ts, v =>
     -- `impl Packed for (T1,..)`: first at 0, (middle offsets,) sizes sum to the total, all members packed
     allPackedL ts v && tupleChain lay.size offs ts
   | .struct _ _ lay fs, v =>
-    !anyIgnore fs && !anyUnversionedRemoved fs
+    !anyIgnore fs && !anyUnversionedRemoved fs && !anyClosedLive fs
       && decide (v ≥ minSafeFields fs)
       && fieldsPacked fs v
       && (match fieldSpans fs with | some sp => chainOk lay.size sp | none => false)
   | .enum _ repr lay vs, v =>
     repr.explicitSize.isSome
+      && !anyExplicitDiscr vs
       && !anyIgnoreV vs
       && decide (v ≥ minSafeVariants vs)
       && variantsFieldsPacked vs v
-      && variantsChain (tagWidth repr vs.length) lay.size vs
+      && (!anyFieldsV vs || variantsChain (tagWidth repr vs.length) lay.size vs)
   | _, _ => false
 def allPackedL : TyL → Nat → Bool
   | .nil, _ => true
@@ -218,6 +224,16 @@ def anyIgnore : FieldL → Bool
 def anyIgnoreV : VariantL → Bool
   | .nil => false
   | .cons _ _ _ fs vs => anyIgnore fs || anyIgnoreV vs
+def anyExplicitDiscr : VariantL → Bool
+  | .nil => false
+  | .cons _ _ d _ vs => d.isSome || anyExplicitDiscr vs
+def anyFieldsV : VariantL → Bool
+  | .nil => false
+  | .cons _ _ _ fs vs => (match fs with | .nil => false | _ => true) || anyFieldsV vs
+/-- a field that is still in memory (not `Removed`) but absent from later versions of the wire format -/
+def anyClosedLive : FieldL → Bool
+  | .nil => false
+  | .cons a _ _ fs => (a.rm == .no && decide (a.r.hi < u32Max)) || anyClosedLive fs
 def anyUnversionedRemoved : FieldL → Bool
   | .nil => false
   | .cons a _ _ fs => (a.rm != .no && a.r.isAll) || anyUnversionedRemoved fs
@@ -251,7 +267,7 @@ def tupleSpans : List Nat → TyL → Option (List (Nat × Nat))
     | some s, some rest => some ((o, s) :: rest)
     | _, _ => none
 /-- per variant with fields: first field right after the tag, fields adjacent, last ends at the enum's size;
-    variants without fields contribute no condition -/
+    variants without fields contribute no condition (known finding D2: such a variant leaves padding) -/
 def variantsChain (tagw size : Nat) : VariantL → Bool
   | .nil => true
   | .cons _ _ _ fs vs =>
@@ -288,7 +304,7 @@ def wireOf : Ty → Nat → W
   | .map k x, v => .seq {} (.prod (.cons (wireOf k v) (.cons (wireOf x v) .nil)))
   | .opt t, v => .opt (wireOf t v)
   | .res a b, v => .res (wireOf a v) (wireOf b v)
-  | .wrap t, v => wireOf t v
+  | .wrap _ t, v => wireOf t v
   | .tup _ _ ts, v => .prod (wireOfL ts v)
   | .arr n t, v => .rep n (if isPacked t v then memSize t else none) (wireOf t v)
   | .struct _ _ _ fs, v => .prod (wireFields fs v)
@@ -327,7 +343,7 @@ def saveWire : Ty → Nat → W
   | .map k x, v => .seq {} (.prod (.cons (saveWire k v) (.cons (saveWire x v) .nil)))
   | .opt t, v => .opt (saveWire t v)
   | .res a b, v => .res (saveWire a v) (saveWire b v)
-  | .wrap t, v => saveWire t v
+  | .wrap _ t, v => saveWire t v
   | .tup _ _ ts, v => .prod (saveWireL ts v)
   | .arr n t, v => .rep n (if isPacked t v then memSize t else none) (saveWire t v)
   | .struct _ _ _ fs, v => .prod (saveFields fs v)
@@ -381,7 +397,7 @@ def fill (env : UserFns) : Ty → Nat → V → V
   | .opt t, v, .some x => .some (fill env t v x)
   | .res a _, v, .alt 1 x => .alt 1 (fill env a v x)
   | .res _ b, v, .alt 0 x => .alt 0 (fill env b v x)
-  | .wrap t, v, x => fill env t v x
+  | .wrap _ t, v, x => fill env t v x
   | .tup _ _ ts, v, .tup l => .tup (fillL env ts v l)
   | .arr _ t, v, .tup l => .tup (mapVL (fill env t v) l)
   | .struct _ _ _ fs, v, .tup l => .tup (fillFields env fs v l)
@@ -447,7 +463,7 @@ def proj : Ty → Nat → V → Except SaveFail V
   | .opt t, v, .some x => (proj t v x).map .some
   | .res a _, v, .alt 1 x => (proj a v x).map (.alt 1)
   | .res _ b, v, .alt 0 x => (proj b v x).map (.alt 0)
-  | .wrap t, v, x => proj t v x
+  | .wrap _ t, v, x => proj t v x
   | .tup _ _ ts, v, .tup l => (projL ts v l).map .tup
   | .arr _ t, v, .tup l => (mapMVL (proj t v) l).map .tup
   | .struct _ _ _ fs, v, .tup l => (projFields fs v l).map .tup
